@@ -278,12 +278,16 @@ def run(tier):
         n_coq = len(outs)
         coq_diff = [i for i, o in zip(idx, outs) if coq_result_to_line(o) != model[i]]
 
-    # hash-seed probe (thorough): results with list inputs must not depend on PYTHONHASHSEED
+    # hash-seed probe: with ordered containers and *string* keys the result must not depend
+    # on PYTHONHASHSEED (and must equal the integer-key result)
     seed_diff = []
-    if thorough:
-        sub = lines[:50000]
-        other = lib.parallel_lines([lib.PY, IMPL, lib.REPO, 'list'], sub, env=lib.impl_env('12345'))
-        seed_diff = [i for i, r in enumerate(other) if r != impl[i]]
+    nprobe = len(lines) if thorough else min(len(lines), 30000)
+    step = max(1, len(lines) // nprobe)
+    pidx = list(range(0, len(lines), step))
+    sub = [lines[i] for i in pidx]
+    for hs in (('7', '12345', '99') if thorough else ('7', '12345')):
+        other = lib.parallel_lines([lib.PY, IMPL, lib.REPO, 'str'], sub, env=lib.impl_env(hs))
+        seed_diff += [(i, hs, r) for i, r in zip(pidx, other) if r != impl[i]]
 
     # ---- verdict
     for i, r in mon_fail[:3]:
@@ -293,10 +297,16 @@ def run(tier):
                       {'case': enc(small), 'original_case': lines[i],
                        'impl_result': one_impl(small), 'model_result': model[i] if model else None,
                        'how': 'PYTHONPATH=/repo /venv/bin/python harness/impl/c20_impl.py /repo <<< case'})
-    for i in (oset_diff + seed_diff)[:2]:
-        rep.violation('result depends on container type / hash seed (not deterministic for a given ordered input)',
-                      {'case': lines[i], 'impl_result': impl[i]})
-    if not mon_fail:
+    for i in oset_diff[:2]:
+        rep.violation('result differs between list and OrderedSet inputs with the same iteration order',
+                      {'case': lines[i], 'impl_result': impl[i], 'impl_result_orderedset': impl_oset[i]})
+    for i, hs, r in sorted(seed_diff, key=lambda t: len(lines[t[0]]))[:2]:
+        rep.violation('not deterministic: with string keys the order depends on PYTHONHASHSEED '
+                      '(ordered containers, same input)',
+                      {'case': lines[i], 'impl_result_int_keys_hashseed0': impl[i],
+                       f'impl_result_string_keys_hashseed{hs}': r,
+                       'how': f'PYTHONHASHSEED={hs} PYTHONPATH=/repo /venv/bin/python harness/impl/c20_impl.py /repo str <<< case'})
+    if not mon_fail and not seed_diff and not oset_diff:
         if model is None:
             rep.violation('model does not build: ' + blog[-1500:], {'broken': 'extraction of theories/C20/Model.v'}, False)
         elif mism:
@@ -343,7 +353,7 @@ def run(tier):
         'result_kinds': kinds,
         'graph_sizes': dict(sorted(sizes.items())),
         'orderedset_inputs_compared': len(impl_oset),
-        'hashseed_probe_cases': 50000 if thorough else 0,
+        'hashseed_probe_cases': len(sub),
         'trusted_base': [
             'Coq 8.16.1 kernel (coqc; coqchk in the thorough tier); vm_compute only in cases.v evaluation',
             'extraction: ExtrOcamlBasic only, N/positive/nat kept inductive; OCaml 4.13.1; ocaml/conv.ml + c20_main.ml',
